@@ -142,7 +142,7 @@ def main():
         "hooks": {
             "guard": "JASM_VERIF",
             "enable": "none needed: the checks observe the public API (JASMConfig().get_info, MasterOfPuppets.regex_rule, "
-                      "the return modes, the module logger, exceptions, a PATH shim for objdump); no hook is compiled into /repo",
+                      "the return modes, the module logger, exceptions, a PATH shim for objdump); no hook is compiled into /repo. The drift-only binding of the pipeline model (Trace_Jasm) wraps six stage-boundary functions from outside, inside the worker's forked child process (harness/stagetrace.py); the repository is not changed for it either",
             "baseline_off_cmd": "cd /repo && /venv/bin/python -m pytest -ra -q -p no:cacheprovider --timeout=900 "
                                 "--continue-on-collection-errors",
             "source_commits": [],
